@@ -9,15 +9,25 @@
 From Coq Require Import List NArith ZArith Bool Permutation.
 Import ListNotations.
 Require Import MV.Common.Interleave MV.C16.Model MV.C16.Spec MV.C16.Conc MV.C16.ExecGen MV.C16.Retention
-               MV.C16.Proofs MV.C16.ProofsDrain MV.C16.ProofsUniform MV.C16.ProofsConc MV.C16.ProofsConc2 MV.C16.ProofsConc3 MV.C16.ExecProofs MV.C16.ProofsWalk2.
+               MV.C16.Proofs MV.C16.ProofsDrain MV.C16.ProofsUniform MV.C16.ProofsConc MV.C16.ProofsConc2 MV.C16.ProofsConc3 MV.C16.ExecProofs MV.C16.ProofsWalk2 MV.C16.ProofsWalk4.
 Open Scope N_scope.
 
 Theorem C16_model_meets_spec : forall cap h, snd (run true (new cap) h) = spec_outs (N.of_nat cap) h.
 Proof. exact model_meets_spec. Qed.
 
-Theorem C16_spec_ok_on_model : forall rk cap ops o,
+Theorem C16_spec_ok_on_model_sequential : forall rk cap ops o,
   agrees rk (CSeq cap ops) o = true -> spec_ok rk (CSeq cap ops) o = true.
 Proof. exact spec_ok_on_model_seq. Qed.
+
+(* every case (sequential history or threads under a schedule), every instance rk of the
+   sample-rate check: an observation that agrees with the model's run of a case outside the open
+   known class passes the executable form of the property.  For threaded cases this is the
+   refinement between the trace walker of ExecGen.v (windows cut at the 1606 steps of the trace,
+   pushes ranked by their 1602 steps) and the ghost ledgers of Conc.v along exec_full: no anomaly,
+   every drain clause, and every push reports what its rank in its window prescribes. *)
+Theorem C16_spec_ok_on_model : forall rk c o,
+  known_class c = None -> agrees rk c o = true -> spec_ok rk c o = true.
+Proof. exact spec_ok_on_model. Qed.
 
 Theorem C16_spec_ok_sound : forall rk cap ops os,
   spec_ok rk (CSeq cap ops) (OSeq os) = true -> Forall2 (predicts rk) (spec_outs cap ops) os.
@@ -154,25 +164,6 @@ Theorem C16_concurrent_accounting_outside_known_class : forall cap progs sched,
     (d_unsampled d <= cap -> d_vals d = firstn (length (d_vals d)) W) /\
     sample_rate d = (if d_unsampled d <=? cap then (1, 1) else (cap, d_unsampled d)).
 Proof. exact accounting_outside_known_class. Qed.
-
-(* Full statement (NOT proved):
-     forall rk capN progs sched o, known_class (CThr capN progs sched) = None ->
-       agrees rk (CThr capN progs sched) o = true -> spec_ok rk (CThr capN progs sched) o = true
-   i.e. spec_thr = no_anomaly && (all drains satisfy drain_ok) && (all pushes satisfy push_results_ok).
-   Proved below, by a refinement between the trace walker (windows cut at the 1606 steps of the
-   trace) and the ghost ledgers along exec_full: the first two conjuncts — no anomaly, and for every
-   drain the walker recorded: the observation is a drain of a Consume op, count = |window|,
-   len = min(count, cap), number of values read, sample-rate check, values only of the window, and
-   exactly its first values in fetch_add order if count <= cap.
-   Missing: the third conjunct, push_results_ok (a push with rank idx in its window reports no draw
-   if idx < cap and a draw with requested bound idx+1 otherwise); it needs the rank of a push in the
-   walker's window to be tied to the idx its fetch_add returned. *)
-Theorem C16_spec_clauses_on_model_partial : forall rk capN progs sched tr' rs' d',
-  known_class (CThr capN progs sched) = None ->
-  agrees rk (CThr capN progs sched) (OThr tr' rs' d') = true ->
-  no_anomaly rs' = true /\
-  forallb (drain_ok rk capN progs rs' (w_pushes (walk tr'))) (w_drains (walk tr')) = true.
-Proof. exact spec_drain_clauses_on_model. Qed.
 
 (* every schedule: at most one thread is between swap.lock and the unlock, and while a drain is
    between its side swap and its count reset, use_primary selects the other side (a push that
